@@ -432,4 +432,165 @@ theorem level_final_is_proportional (div : Nat → Rat) (hd : (∀ k, 0 < div k)
       rw [htp] at he
       simp at he
 
+/-! ### the literal "smallest enlargement" reading, and where the code departs from it -/
+
+/-- **Smallest enlargement, literally.**  For an evaluator that fills the house and returns distinct keys: whenever the
+    loop is entered (`adj > 0`), or no party outside the tier holds direct seats (`drop = 0`), the returned adjustment is
+    THE least `e ≥ 0` such that the proportional distribution of `n + e − drop` seats — the seats not held by parties
+    outside the tier — gives every tier key at least its direct seats and its initial share. -/
+theorem level_least_enlargement (ev : PropEval) (fuel : Nat) (votes : Votes) (n : Nat) (prev : Seats) (adj : Nat)
+    (hf : Fills ev votes) (hnod : ∀ r, ev votes n [] [] = .ok r → (r.map (·.1)).Nodup)
+    (h : levelOverhang ev fuel votes n prev [] = .ok adj) :
+    ∃ prop, ev votes n [] [] = .ok prop ∧
+      (0 < adj ∨ nonpropDrop (lowestAllowed prop prev) prev = 0 →
+        Adequate ev votes [] (lowestAllowed prop prev) (n - nonpropDrop (lowestAllowed prop prev) prev + adj) ∧
+        ∀ e, e < adj → ¬ Adequate ev votes [] (lowestAllowed prop prev)
+          (n - nonpropDrop (lowestAllowed prop prev) prev + e)) := by
+  obtain ⟨prop, hp, hdn, _, hcases⟩ := level_is_least ev fuel votes n prev [] adj h
+  refine ⟨prop, hp, fun hor => ?_⟩
+  have hpn := hnod prop hp
+  rcases hcases with ⟨h0, hm⟩ | ⟨hpos, hnm, hade, hmid⟩
+  · subst h0
+    rcases hor with hlt | hd0
+    · omega
+    · refine ⟨⟨prop, by rw [hd0]; simpa using hp, hm⟩, fun e he => by omega⟩
+  · refine ⟨hade, fun e he => ?_⟩
+    rcases Nat.eq_zero_or_pos e with rfl | hepos
+    · rintro ⟨r, hr, hm⟩
+      rw [Nat.add_zero] at hr
+      -- Σ floors ≤ Σ r = n − drop, and Σ floors ≥ Σ prop = n
+      have h1 := sum_floors_le (lowestAllowed prop prev) (by rw [lowestAllowed_keys]; exact hpn) r hm
+      have h2 := sumDist_lowestAllowed_ge prop prev
+      have h3 := hf n [] prop hp (by simp [sumSeats])
+      have h4 := hf _ [] r hr (by simp [sumSeats])
+      simp only [sumSeats, List.map_nil, List.sum_nil, Nat.zero_add] at h3 h4
+      have hd0 : nonpropDrop (lowestAllowed prop prev) prev = 0 := by omega
+      rw [hd0, Nat.sub_zero, hp] at hr
+      rw [← Except.ok.inj hr] at hm
+      exact hnm hm
+    · obtain ⟨r, hr, hnmr⟩ := hmid e hepos he
+      rintro ⟨r', hr', hm'⟩
+      rw [hr] at hr'
+      rw [← Except.ok.inj hr'] at hm'
+      exact hnmr hm'
+
+open Gen.Divisor in
+/-- **Where the code departs from the literal reading** (recorded finding
+    `C15-level-zero-with-party-outside-tier`): D'Hondt, votes 60:40, 10 seats, a party outside the tier holds 2 direct
+    seats.  The adjustment is 0, but the proportional distribution of the 8 seats not held outside the tier is 5:3,
+    below the initial shares 6:4 — enlargement 0 is NOT adequate in the literal sense; the hypothesis
+    `0 < adj ∨ drop = 0` of `level_least_enlargement` is necessary. -/
+theorem level_zero_outside_tier_witness :
+    levelOverhang (haEval d_hondt) 400 [(0, 60), (1, 40)] 10 [(2, 2)] [] = .ok 0 ∧
+    haEval d_hondt [(0, 60), (1, 40)] 10 [] [] = .ok [(.cand 0, 6), (.cand 1, 4)] ∧
+    nonpropDrop (lowestAllowed [(.cand 0, 6), (.cand 1, 4)] [(2, 2)]) [(2, 2)] = 2 ∧
+    ¬ Adequate (haEval d_hondt) [(0, 60), (1, 40)] [] (lowestAllowed [(.cand 0, 6), (.cand 1, 4)] [(2, 2)]) (10 - 2 + 0) := by
+  refine ⟨by decide +kernel, by decide +kernel, by decide +kernel, ?_⟩
+  rintro ⟨r, hr, hm⟩
+  have h8 : haEval d_hondt [(0, 60), (1, 40)] (10 - 2 + 0) [] [] = .ok [(.cand 0, 5), (.cand 1, 3)] := by decide +kernel
+  rw [h8] at hr
+  rw [← Except.ok.inj hr] at hm
+  have := hm (.cand 0, 6) (by decide +kernel)
+  revert this
+  decide +kernel
+
+/-! ### LevelOverhangByConstituency -/
+
+/-- **Levelling by constituency is least.**  With the floors summed over the constituencies
+    (`lowestAllowedCty`) and the overall evaluator on the vote totals, the returned adjustment is the least `e ≥ 0`
+    for which the overall distribution of `n − drop + e` seats meets every floor (here the first evaluation is already
+    made at `n − drop`, so the literal reading holds without exception). -/
+theorem level_cty_is_least (cev : CtyEval) (ov : PropEval) (fuel : Nat) (cv : CVotes) (n : Nat) (prev : CSeats)
+    (adj : Nat) (h : levelOverhangCty cev ov fuel cv n prev = .ok adj) :
+    ∃ cres, cev cv n = .ok cres ∧
+      nonpropDropCty (lowestAllowedCty cres prev) prev ≤ n ∧ adj ≤ fuel ∧
+      Adequate ov (voteTotals cv) [] (lowestAllowedCty cres prev)
+        (n - nonpropDropCty (lowestAllowedCty cres prev) prev + adj) ∧
+      ∀ e, e < adj → ∃ r, ov (voteTotals cv) (n - nonpropDropCty (lowestAllowedCty cres prev) prev + e) [] [] = .ok r ∧
+        ¬ MeetsFloors r (lowestAllowedCty cres prev) := by
+  unfold levelOverhangCty at h
+  cases hev : cev cv n with
+  | error e => rw [hev] at h; simp [bind, Except.bind] at h
+  | ok cres =>
+    rw [hev] at h
+    simp only [bind, Except.bind] at h
+    refine ⟨cres, rfl, ?_⟩
+    generalize lowestAllowedCty cres prev = floors at h ⊢
+    generalize nonpropDropCty floors prev = drop at h ⊢
+    by_cases hnd : n < drop
+    · simp [hnd] at h
+    · simp only [hnd, ↓reduceIte] at h
+      cases hov : ov (voteTotals cv) (n - drop) [] [] with
+      | error e => rw [hov] at h; simp at h
+      | ok prop =>
+        rw [hov] at h
+        simp only at h
+        cases hl : levelLoop (fun h => ov (voteTotals cv) h [] []) floors fuel (n - drop) prop with
+        | error e => rw [hl] at h; simp at h
+        | ok H =>
+          rw [hl] at h
+          simp only [pure, Except.pure, Except.ok.injEq] at h
+          obtain ⟨h1, h2, h3, h4⟩ := levelLoop_spec _ _ _ _ _ _ hl
+          refine ⟨by omega, by omega, ?_, ?_⟩
+          · rcases Nat.eq_or_lt_of_le h1 with heq | hlt
+            · have hadj : adj = 0 := by omega
+              rw [hadj, Nat.add_zero]
+              exact ⟨prop, hov, (belowMin_false_iff _ _).mp (h3 heq.symm)⟩
+            · obtain ⟨_, ⟨r, hr, hrb⟩, _⟩ := h4 hlt
+              have hH : n - drop + adj = H := by omega
+              exact ⟨r, by rw [hH]; exact hr, (belowMin_false_iff _ _).mp hrb⟩
+          · intro e he
+            have hlt : n - drop < H := by omega
+            obtain ⟨hb, _, hmid⟩ := h4 hlt
+            rcases Nat.eq_zero_or_pos e with rfl | hepos
+            · refine ⟨prop, by rw [Nat.add_zero]; exact hov, fun hm => ?_⟩
+              rw [(belowMin_false_iff _ _).mpr hm] at hb
+              exact Bool.false_ne_true hb
+            · obtain ⟨r', hr', hrb'⟩ := hmid (n - drop + e) (by omega) (by omega)
+              refine ⟨r', hr', fun hm => ?_⟩
+              rw [(belowMin_false_iff _ _).mpr hm] at hrb'
+              exact Bool.false_ne_true hrb'
+
+/-! ### non-vacuity: concrete inputs meeting the hypotheses of the conditional theorems -/
+
+section Examples
+open Gen.Divisor
+
+/-- Sainte-Laguë, four parties, 12 seats; party 3 holds 3 direct seats against a share of 1, party 0 holds 5 -/
+def exVotes : Votes := [(0, 500), (1, 300), (2, 150), (3, 50)]
+def exPrev : Seats := [(0, 5), (3, 3)]
+
+example : haEval sainte_lague exVotes 12 [] [] = .ok [(.cand 0, 6), (.cand 1, 4), (.cand 2, 2), (.cand 3, 1)] := by
+  decide +kernel
+example : allowOverhang (haEval sainte_lague) exVotes 12 exPrev [] = .ok 2 := by decide +kernel
+example : levelOverhang (haEval sainte_lague) 400 exVotes 12 exPrev [] = .ok 18 := by decide +kernel
+example : adjustedSeatCount (levelOverhang (haEval sainte_lague) 400) (haEval sainte_lague) exVotes 12 exPrev []
+    = .ok [(.cand 0, 10), (.cand 1, 9), (.cand 2, 4)] := by decide +kernel
+example : haEval sainte_lague exVotes (12 + 18) [] [] = .ok [(.cand 0, 15), (.cand 1, 9), (.cand 2, 4), (.cand 3, 3)] := by
+  decide +kernel
+example : (∀ p ∈ exVotes, 0 < p.2) ∧ (keys exVotes).Nodup ∧ (exPrev.map (·.1)).Nodup ∧ sumSeats exPrev ≤ 12 := by
+  decide +kernel
+example : ∀ p ∈ exPrev, 0 < p.2 →
+    distHas [(.cand 0, 6), (.cand 1, 4), (.cand 2, 2), (.cand 3, 1)] (.cand p.1) = true := by decide +kernel
+example : ∀ p ∈ ([(.cand 0, 6), (.cand 1, 4), (.cand 2, 2), (.cand 3, 1)] : Dist),
+    ∃ c, p.1 = .cand c ∧ 0 < getD exVotes c 0 := by
+  intro p hp
+  simp only [List.mem_cons, List.not_mem_nil, or_false] at hp
+  rcases hp with rfl | rfl | rfl | rfl
+  · exact ⟨0, rfl, by decide +kernel⟩
+  · exact ⟨1, rfl, by decide +kernel⟩
+  · exact ⟨2, rfl, by decide +kernel⟩
+  · exact ⟨3, rfl, by decide +kernel⟩
+/-- the two-stage wrapper on the same input: totals, house 12 + 18 = 30 -/
+example : multistage [(mockStage exPrev, exVotes),
+      (adjustedSeatCount (levelOverhang (haEval sainte_lague) 400) (haEval sainte_lague), exVotes)] 12 [] []
+    = .ok [(.cand 0, 15), (.cand 3, 3), (.cand 1, 9), (.cand 2, 4)] := by decide +kernel
+/-- a party outside the tier (party 4, no votes) with direct seats and tier overhang: the loop runs from 12 − 2 -/
+example : levelOverhang (haEval sainte_lague) 400 exVotes 12 [(3, 2), (4, 2)] [] = .ok 10 := by decide +kernel
+/-- by constituency: two constituencies with 3 and 2 seats, D'Hondt, party 1 holds both seats of constituency 1 -/
+example : levelOverhangCty (byConstituencyFixed (haEval d_hondt) [(0, 3), (1, 2)]) (haEval d_hondt) 400
+    [(0, [(0, 60), (1, 30)]), (1, [(0, 50), (1, 40)])] 5 [(1, [(1, 2)])] = .ok 2 := by decide +kernel
+
+end Examples
+
 end VL.C15
